@@ -283,6 +283,20 @@ def sweep_C04(ctx):
 
 
 # ---------------------------------------------------------------------------
+def prefix_form(ctx, prefs):
+    """The prefix list as the caller may hand it over: a list, a tuple, or a one-shot iterable
+    (the requests walk it once)."""
+    x = ctx.obs_rng.random()
+    if x < 0.7:
+        return list(prefs)
+    ctx.probe("prefixes_given_as_tuple_or_iterator")
+    if x < 0.8:
+        return tuple(prefs)
+    if x < 0.9:
+        return iter(list(prefs))
+    return (p for p in list(prefs))
+
+
 def sweep_C05(ctx):
     m, t = ctx.model, ctx.t
     allseen = Counter()
@@ -290,7 +304,7 @@ def sweep_C05(ctx):
     for w in m.weids():
         prefs = m.we_prefixes(w)
         ctx.obs_rng.shuffle(prefs)
-        r = guarded(ctx, "C05.pages", t.get_webentity_pages, w, prefs)
+        r = guarded(ctx, "C05.pages", t.get_webentity_pages, w, prefix_form(ctx, prefs))
         ctx.check("C05.pages", r[0] == "ok", lambda: "get_webentity_pages(%r, %s) refused" % (w, short(prefs)))
         got = [(d["lru"], d["crawled"]) for d in r[1]]
         lr = [l for l, _ in got]
@@ -304,7 +318,7 @@ def sweep_C05(ctx):
         )
         for l in lr:
             allseen[l] += 1
-        r = guarded(ctx, "C05.crawled_pages", t.get_webentity_crawled_pages, w, prefs)
+        r = guarded(ctx, "C05.crawled_pages", t.get_webentity_crawled_pages, w, prefix_form(ctx, prefs))
         gotc = sorted(d["lru"] for d in r[1])
         ctx.check("C05.crawled_pages", gotc == sorted(l for l, c in exp.items() if c) and all(d["crawled"] is True for d in r[1]), lambda: "crawled pages of %r = %s expected %s" % (w, short(gotc), short(sorted(l for l, c in exp.items() if c))))
         nested = [q for q in m.pref if m.pref[q] != w and any(q.startswith(p) and len(q) > len(p) for p in prefs)]
@@ -522,9 +536,9 @@ def sweep_C13(ctx):
     for w in m.weids():
         prefs = m.we_prefixes(w)
         ctx.obs_rng.shuffle(prefs)
-        r = guarded(ctx, "C13.parents", t.get_webentity_parent_webentities, w, prefs)
+        r = guarded(ctx, "C13.parents", t.get_webentity_parent_webentities, w, prefix_form(ctx, prefs))
         ctx.check("C13.parents", r[0] == "ok" and sorted(r[1]) == sorted(m.parents_of(w)), lambda: "parents of %r (%s) = %r expected %s" % (w, short(prefs), r, sorted(m.parents_of(w))))
-        r = guarded(ctx, "C13.children", t.get_webentity_child_webentities, w, prefs)
+        r = guarded(ctx, "C13.children", t.get_webentity_child_webentities, w, prefix_form(ctx, prefs))
         exp = sorted(m.children_of(w))
         ctx.check("C13.children", r[0] == "ok" and sorted(r[1]) == exp, lambda: "children of %r (%s) = %r expected %s" % (w, short(prefs), r, exp))
         if exp:
@@ -622,7 +636,8 @@ def sweep_C20(ctx, known=None):
         mine = sorted(l for l, x in p2w.items() if x == w)
         n = len(mine)
         for k in sorted({1, 2, 3, 10, n + 1}):
-            for md in (None, 0, 1, 2):
+            deepest = max((len(stems(l)) for l in mine), default=0) if k == 10 else 0
+            for md in (None, 0, 1, 2) + ((257, 300) if deepest > 250 else ()):
                 r = guarded(ctx, "C20.query", t.get_webentity_most_linked_pages, w, prefs, pages_count=k, max_depth=md)
                 ctx.check("C20.query", r[0] == "ok", lambda: "most linked pages refused")
                 got = [(d["lru"], d["indegree"]) for d in r[1]]
